@@ -137,6 +137,12 @@ def run(ctx):
                     pth = write_replay("C12", "par-%d" % rnd, dict(kind="impl-monitor", L=L, argv=["redo", "-j3", "top"], rc=r.rc, stderr=r.err[-1500:]))
                     viol.append(Violation("C12", pth, "`redo -j3 top` on a cycle of length %d: %s" % (L, "hang" if r.timed_out else "exit 0" if r.rc == 0 else "panic")))
                     break
+                wans, wev, wreach = sched.replay_waits(r.trace, dict([(n, [cyc[(i + 1) % L]]) for i, n in enumerate(cyc)] + [("top", ["sib", cyc[0]]), ("sib", [])]))
+                stats["wait_replays"] = stats.get("wait_replays", 0) + 1
+                if not re.match(r"ok .* deadlocked=0 stuckstates=0 ", wans):
+                    pth = write_replay("C12", "par-wait-%d" % rnd, dict(kind="trace-vs-model", L=L, answer=wans, events=wev, reach=wreach))
+                    viol.append(Violation("C12", pth, "wait-for trace of a terminating cyclic build not accepted by the model: %s" % wans, no_input=True))
+                    break
                 if "cyclic dependency" not in r.err and " 208 " not in r.err:
                     pth = write_replay("C12", "par-msg-%d" % rnd, dict(kind="impl-monitor", L=L, rc=r.rc, stderr=r.err[-1500:]))
                     viol.append(Violation("C12", pth, "cycle of length %d at -j3 ended non-zero but no process identified a cyclic dependency" % L))
@@ -145,14 +151,21 @@ def run(ctx):
                 if L >= 3:
                     r2 = sched.run_cmds(pr, [["redo", "-j3", "top", cyc[1]]], timeout=12)[0]
                     stats["parallel_runs"] += 1
+                    graph = dict([(n, [cyc[(i + 1) % L]]) for i, n in enumerate(cyc)] + [("top", ["sib", cyc[0]]), ("sib", [])])
+                    wans, wev, wreach = sched.replay_waits(r2.trace, graph)
+                    stats["wait_replays"] = stats.get("wait_replays", 0) + 1
+                    explained = bool(re.match(r"ok alive=\d+ blocked=[1-9]\d* deadlocked=1 ", wans))
+                    if r2.timed_out and explained:
+                        stats["hangs_explained_by_model"] = stats.get("hangs_explained_by_model", 0) + 1
                     if r2.timed_out:
                         stats["hangs"] += 1
-                        if "cross-branch-cycle-hangs" in kf:
+                        if "cross-branch-cycle-hangs" in kf and explained:
                             msg = "`redo -j3 top %s` with top->c0->c1->…->c0: two branches enter the cycle, each waits for a lock held by the other's ancestor; REDO_CYCLES only lists ancestors -> hang" % cyc[1]
                             if msg[:40] not in [k[:40] for k in known_hit]:
                                 known_hit.append(msg)
                         else:
-                            pth = write_replay("C12", "cross-%d" % rnd, dict(kind="impl-monitor", L=L, argv=["redo", "-j3", "top", cyc[1]], stderr=r2.err[-2500:]))
+                            # a hang the wait-for model does not end deadlocked on (or rejects) is not the recorded finding
+                            pth = write_replay("C12", "cross-%d" % rnd, dict(kind="impl-monitor", L=L, argv=["redo", "-j3", "top", cyc[1]], stderr=r2.err[-2500:], waits_answer=wans, waits_events=wev, reach=wreach))
                             viol.append(Violation("C12", pth, "`redo -j3 top %s` hangs on a cycle of length %d entered from two branches" % (cyc[1], L)))
                             break
                     elif r2.rc == 0:
